@@ -214,7 +214,7 @@ def digest_of(parts: dict) -> str:
 # ----------------------------------------------------------------------------- well-formedness bits
 
 
-def wf_bits(m, code_ok: bool | None = None) -> list:
+def wf_bits(m, code_ok: bool | None = None, detail: dict | None = None) -> list:
     """The bits of the property statement that hold for model m (independent of pharmpy's own validation):
     bounds  : lower <= init <= upper for every parameter
     names   : parameter names, random variable names, column names and compartment names are unique,
@@ -260,6 +260,9 @@ def wf_bits(m, code_ok: bool | None = None) -> list:
             used = {str(x) for x in s.free_symbols}
             if not used <= defined:
                 ok = False
+                if detail is not None:
+                    detail["undefined"] = sorted(used - defined)
+                    detail["where"] = "ode_system"
                 break
             for a in s.amounts:
                 defined.add(str(a))
@@ -269,6 +272,9 @@ def wf_bits(m, code_ok: bool | None = None) -> list:
         missing = used - defined
         if missing:
             ok = False
+            if detail is not None:
+                detail["undefined"] = sorted(missing)
+                detail["where"] = "assignment"
             break
         sym = s.symbol
         defined.add(str(sym))
@@ -462,7 +468,9 @@ class Session:
                 else:
                     self.objs.append(r)
                     ev["res"] = len(self.objs)
-                    ev["wf"] = wf_bits(r)
+                    det: dict = {}
+                    ev["wf"] = wf_bits(r, detail=det)
+                    info.update(det)
                 results.append(r)
                 info["result_type"] = "Model"
             else:
